@@ -13,8 +13,8 @@
      out_pilots n st s / out_rates st s / out_done st s   the rows of station s / the sessions that
                                              charged there with their delivered energy
    Only statements here. *)
-From Coq Require Import ZArith QArith List Bool Permutation.
-From ACN Require Import Base.Num Model.EVSE Model.SimPerm Proofs.SimPerm.
+From Coq Require Import ZArith QArith List Bool Permutation Lia.
+From ACN Require Import Base.Num Model.EVSE Model.SimPerm Proofs.SimPerm Proofs.SimShift.
 Import ListNotations.
 Open Scope Q_scope.
 Open Scope list_scope.
@@ -87,3 +87,86 @@ Print Assumptions C10_uncontrolled_equivariant.
 Theorem C10_scripted_equivariant : forall script, equivariant (sched_script script).
 Proof. exact script_equivariant. Qed.
 Print Assumptions C10_scripted_equivariant.
+
+(* shifting every event by k periods shifts the outputs by k periods.
+   shift_config k cf: every session's arrival and departure + k.  shift_state k st: every pilot row
+   and rate row gets k leading zeros (zeros k ++ row), the connected EVs carry the shifted times, the
+   warning log and _last_schedule_update move by k, everything else (energies, occupants) is equal.
+   Hypotheses: the scheduler is time-invariant (sched' at t+k on the shifted view = sched at t),
+   submits nothing while the network is still empty, every EVSE accepts a zero pilot (an idle
+   period raises InvalidRateError otherwise), sessions are well-formed (arrival < departure) and
+   a0 is the first arrival.  The equation includes failure: one run raises iff the other does. *)
+Theorem C10_shift : forall k a0 sched sched' sts cf,
+  (forall t v, sched' (t + k)%nat (map (shift_info k) v) = sched t v) ->
+  (forall t, (t < a0)%nat -> sched t [] = []) ->
+  (forall t, (t < a0 + k)%nat -> sched' t [] = []) ->
+  (forall q, In q sts -> valid_rate (st_kind (snd q)) 0 = true) ->
+  (forall x, In x (cf_sessions cf) -> (a0 <= se_arr x /\ se_arr x < se_dep x)%nat) ->
+  arriving a0 (cf_sessions cf) <> [] ->
+  simulate sched' sts (shift_config k cf) = option_map (shift_state k) (simulate sched sts cf).
+Proof. exact thm_shift. Qed.
+Print Assumptions C10_shift.
+
+(* what shift_state means for the observables of one station *)
+Theorem C10_shift_outputs : forall k st s,
+  out_rates (shift_state k st) s = option_map (fun r => zeros k ++ r) (out_rates st s)
+  /\ out_done (shift_state k st) s = out_done st s
+  /\ option_map sl_pilots (zassoc s (ss_slots (shift_state k st)))
+     = option_map (fun sl => zeros k ++ sl_pilots sl) (zassoc s (ss_slots st)).
+Proof.
+  intros k st s. unfold out_rates, out_done. simpl. rewrite zassoc_shift.
+  destruct (zassoc s (ss_slots st)); simpl; auto.
+Qed.
+Print Assumptions C10_shift_outputs.
+
+(* the two scheduler families satisfy the hypotheses of C10_shift *)
+Theorem C10_uncontrolled_time_invariant : forall k t v,
+  sched_uncontrolled (t + k)%nat (map (shift_info k) v) = sched_uncontrolled t v
+  /\ sched_uncontrolled t [] = [].
+Proof. intros. split; [apply uncontrolled_shift|reflexivity]. Qed.
+Print Assumptions C10_uncontrolled_time_invariant.
+
+Theorem C10_scripted_time_invariant : forall k script t v v',
+  sched_script (shift_script k script) (t + k)%nat v' = sched_script script t v
+  /\ ((t < k)%nat -> sched_script (shift_script k script) t v = []).
+Proof. intros. split; [apply script_shift|apply script_idle_before]. Qed.
+Print Assumptions C10_scripted_time_invariant.
+
+(* ---- non-vacuity: a concrete scenario (2 stations, 3 sessions, one constraint, uncontrolled
+   charging) runs to completion in the model, in the original and in the permuted / shifted forms ---- *)
+Definition ex_sts : list (Z * station) :=
+  [(1%Z, {| st_kind := Continuous 0 32; st_voltage := 240; st_cos := 1; st_sin := 0 |});
+   (2%Z, {| st_kind := Finite [8; 16]; st_voltage := 208; st_cos := 1 # 2; st_sin := 7 # 8 |})].
+Definition ex_ses : list session :=
+  [{| se_id := 101; se_station := 1; se_arr := 0; se_dep := 3; se_req := 2; se_cap := 20; se_init := 0; se_maxp := 7 |};
+   {| se_id := 102; se_station := 2; se_arr := 1; se_dep := 4; se_req := 1 # 2; se_cap := 20; se_init := 0; se_maxp := 7 |};
+   {| se_id := 103; se_station := 1; se_arr := 3; se_dep := 5; se_req := 5; se_cap := 20; se_init := 0; se_maxp := 7 |}].
+Definition ex_cf : config :=
+  {| cf_sessions := ex_ses; cf_max_recompute := Some 1%nat; cf_period := 5;
+     cf_constraints := [{| c_name := 0; c_coef := [(1%Z, 1); (2%Z, 1)]; c_limit := 40 |}];
+     cf_abs_tol := 1 # 100000; cf_rel_tol := 1 # 10000000 |}.
+
+Example C10_example_runs :
+  (exists st, simulate sched_uncontrolled ex_sts ex_cf = Some st
+              /\ out_done st 1%Z = Some [(101%Z, 7 # 4); (103%Z, 7 # 6)]
+              /\ ss_warn st <> [] )
+  /\ (exists st, simulate sched_uncontrolled (rev ex_sts) ex_cf = Some st)
+  /\ (exists st, simulate sched_uncontrolled ex_sts (shift_config 2 ex_cf) = Some st).
+Proof.
+  split; [|split].
+  - eexists. split; [vm_compute; reflexivity|]. split; [reflexivity|discriminate].
+  - eexists. vm_compute. reflexivity.
+  - eexists. vm_compute. reflexivity.
+Qed.
+
+Example C10_example_hypotheses :
+  NoDup (map fst ex_sts) /\ Permutation ex_sts (rev ex_sts)
+  /\ (forall q, In q ex_sts -> valid_rate (st_kind (snd q)) 0 = true)
+  /\ (forall x, In x (cf_sessions ex_cf) -> (0 <= se_arr x /\ se_arr x < se_dep x)%nat)
+  /\ arriving 0 (cf_sessions ex_cf) <> [].
+Proof.
+  split; [repeat constructor; simpl; intuition discriminate|].
+  split; [apply Permutation_rev|].
+  split; [intros q [H|[H|[]]]; subst; reflexivity|].
+  split; [intros x [H|[H|[H|[]]]]; subst; simpl; lia|discriminate].
+Qed.
